@@ -251,71 +251,111 @@ func wireMatch(w *World, wc *wireCtx, r *Report) {
 	// ---- dispatch completeness ----
 	const ruleDisp = "C05/dispatch-table"
 	for _, ga := range anchorTable {
-		for _, fn := range wc.anchors[ga.Lang]["dispatch"] {
-			found := false
-			pos := w.pos(fn.Pos())
+		found := false
+		pos := ""
+		where := ""
+		for _, fn := range wc.anchors[ga.Lang]["own"] {
+			if roleOf(fn) == "test" {
+				continue
+			}
 			for _, s := range wc.m.sitesOf(fn) {
 				d, _ := wc.m.siteDeps(s, nil)
 				if d&sPK != 0 && d&sPV != 0 {
 					found = true
 					pos = w.instrPos(s.instr)
+					where = fnKey(fn)
 				}
 			}
-			key := fmt.Sprintf("%s: %s emits one entry per pair from its key and its packet", ga.Lang, fnKey(fn))
-			if found {
-				r.pass(ruleDisp, key, pos, "")
-			} else {
-				r.fail(ruleDisp, key, pos, "no emission in the dispatch emitter depends on both MatchPair.Key and MatchPair.Value of a pair: the table the decoder consults is not the DSL's table")
-			}
+		}
+		key := fmt.Sprintf("%s: the dispatch table is emitted from the key and the packet of every pair", ga.Lang)
+		if found {
+			r.pass(ruleDisp, key, pos, where)
+		} else {
+			r.fail(ruleDisp, key, pos, "no emission of this generator depends on both MatchPair.Key and MatchPair.Value of a pair: the table the decoder consults is not the DSL's table")
 		}
 	}
 	r.floor(ruleDisp, 6)
 
 	// ---- dedup keys ----
 	const ruleDedup = "C05/pair-dedup"
-	type expect struct {
-		lang, fn string
-		want     string // "Key" | "Value"
-		required bool   // a dedup must exist
-		why      string
-	}
-	exps := []expect{
-		{"rust", "DecodeMatchField", "Key", false, "decode arms are per key: several keys may map to one packet and each needs its arm"},
-		{"rust", "EncoderMatchField", "Value", true, "one encode arm per enum variant: variants are per packet"},
-		{"rust", "generateMatchFieldEnumCode", "Value", true, "one enum variant per packet: a repeated variant does not compile"},
-		{"go", "generateInit", "Key", false, "one registration per key"},
-		{"java", "GenerateMessageFactory", "Key", false, "one registration per key"},
-		{"python", "generateCodeForPacket", "Key", false, "one registration per key"},
-		{"cpp", "generateCodeForPacket", "Key", false, "one registration per key"},
-		{"lua", "decodeField", "Key", false, "one branch per key"},
-	}
-	recvOf := map[string]string{}
+	// every seen-set over match pairs found under a generator is judged by the role of the function it filters for:
+	// decode emitters need one entry per key; Rust's enum declaration and encode arms need one entry per packet.
+	nSets := 0
 	for _, ga := range anchorTable {
-		recvOf[ga.Lang] = ga.Recv
+		for _, fn := range wc.anchors[ga.Lang]["own"] {
+			if roleOf(fn) == "test" {
+				continue
+			}
+			keys := dedupKeys(w, fn, 0, map[*ssa.Function]bool{})
+			if len(keys) == 0 {
+				continue
+			}
+			// what does this function emit with the filtered pairs?
+			var usesKey, usesVal bool
+			for _, st := range wc.m.sitesOf(fn) {
+				d, _ := wc.m.siteDeps(st, nil)
+				if d&sPK != 0 {
+					usesKey = true
+				}
+				if d&sPV != 0 {
+					usesVal = true
+				}
+			}
+			want := ""
+			why := ""
+			switch {
+			case usesKey:
+				want, why = "Key", "it emits one entry per key: several keys may map to one packet and each needs its entry"
+			case usesVal:
+				want, why = "Value", "it emits one entry per packet (enum variant / encode arm / import): a repeated entry does not compile"
+			default:
+				continue
+			}
+			nSets++
+			key := fmt.Sprintf("%s: %s filters pairs by %s only", ga.Lang, fnKey(fn), want)
+			var bad []string
+			for k := range keys {
+				if k != want {
+					bad = append(bad, k)
+				}
+			}
+			sort.Strings(bad)
+			if len(bad) > 0 {
+				r.fail(ruleDedup, key, w.pos(fn.Pos()), fmt.Sprintf("pairs reaching this emitter are de-duplicated by MatchPair.%s, but %s", strings.Join(bad, ","), why))
+			} else {
+				r.pass(ruleDedup, key, w.pos(fn.Pos()), why)
+			}
+		}
 	}
-	for _, e := range exps {
-		fn := lookupFunc(w.Parser, recvOf[e.lang], e.fn)
-		if fn == nil {
-			r.fatal("anchor unresolved: (%s).%s", recvOf[e.lang], e.fn)
+	// Rust: the enum and the encoder must de-duplicate by packet at all
+	for _, fn := range wc.anchors["rust"]["own"] {
+		if roleOf(fn) == "test" {
+			continue
+		}
+		var usesKey, usesVal, inPairLoop bool
+		for _, st := range wc.m.sitesOf(fn) {
+			d, _ := wc.m.siteDeps(st, nil)
+			if d&sPK != 0 {
+				usesKey = true
+			}
+			if d&sPV != 0 {
+				usesVal = true
+				inPairLoop = true
+			}
+		}
+		if !inPairLoop || usesKey {
 			continue
 		}
 		keys := dedupKeys(w, fn, 0, map[*ssa.Function]bool{})
-		key := fmt.Sprintf("%s: %s filters pairs by %s only", e.lang, e.fn, e.want)
-		var bad []string
-		for k := range keys {
-			if k != e.want {
-				bad = append(bad, k)
-			}
+		key := fmt.Sprintf("rust: %s emits one entry per packet", fnKey(fn))
+		if keys["Value"] {
+			r.pass(ruleDedup, key, w.pos(fn.Pos()), "pairs de-duplicated by MatchPair.Value")
+		} else if usesVal {
+			r.fail(ruleDedup, key, w.pos(fn.Pos()), "emits per-packet text (enum variant / match arm / use line) for every pair without de-duplicating by packet: two keys mapping to one packet repeat the entry, which rustc rejects")
 		}
-		sort.Strings(bad)
-		switch {
-		case len(bad) > 0:
-			r.fail(ruleDedup, key, w.pos(fn.Pos()), fmt.Sprintf("pairs reaching this emitter are de-duplicated by MatchPair.%s (%s)", strings.Join(bad, ","), e.why))
-		case e.required && !keys[e.want]:
-			r.fail(ruleDedup, key, w.pos(fn.Pos()), "no de-duplication by MatchPair."+e.want+": "+e.why)
-		default:
-			r.pass(ruleDedup, key, w.pos(fn.Pos()), e.why)
-		}
+	}
+	if nSets < 2 {
+		r.fail(ruleDedup, "seen-sets over match pairs found", "", fmt.Sprintf("expected the Rust emitters' seen-sets, found %d", nSets))
 	}
 
 	// ---- decoders consult the key field ----
@@ -358,12 +398,18 @@ func dedupKeys(w *World, fn *ssa.Function, depth int, seen map[*ssa.Function]boo
 			if g == nil || !w.isSubjectFunc(g) {
 				return
 			}
-			// helper that takes or returns []MatchPair
+			// helper that takes or returns []MatchPair (or the match attribute itself)
 			rel := false
 			for _, p := range g.Params {
 				if sl, ok := p.Type().Underlying().(*types.Slice); ok && modelTypeName(sl.Elem()) == "MatchPair" {
 					rel = true
 				}
+				if modelTypeName(p.Type()) == "MatchFieldAttribute" {
+					rel = true
+				}
+			}
+			if roleOf(g) == "enc" || roleOf(g) == "dec" || roleOf(g) == "test" {
+				rel = false // another emitter: judged on its own
 			}
 			if res := g.Signature.Results(); res.Len() == 1 {
 				if sl, ok := res.At(0).Type().Underlying().(*types.Slice); ok && modelTypeName(sl.Elem()) == "MatchPair" {
